@@ -70,7 +70,7 @@ func (Prop) Size(tier string) int {
 	return 40000
 }
 func (Prop) Rule() string {
-	return "plan = 1-4 caller tasks, each a list of segments (fresh or recycled point initialised with a field of a host-supplied Go type, a tag, a message; 1-25 builtin operations add_key/set_tag/drop_key/rename/cast/set_measurement(delete)/default_time/grok over keys {f1,t1,message,_,n1,n2} and all value kinds incl. lists/maps/NaN-in-list; optional cancellation after op k), interleaved at every yield point with simulator-chosen recycling of TFMeta/Point/Task objects; evaluation = one execution of a plan's histories (solo reference or interleaved); non-trivial = at least 2 operations, and a pooled object was recycled or a task switch happened; distinct = hash of (histories, switch and recycle decisions)"
+	return "plan = 1-4 caller tasks, each a list of segments (fresh or recycled point initialised with a field of a host-supplied Go type, a tag, a message; 1-25 builtin operations add_key/set_tag/drop_key/rename/cast/set_measurement(delete)/default_time/grok over keys {f1,t1,message,_,n1,n2} and all value kinds incl. lists/maps/NaN-in-list; optional cancellation after op k; local variables named like keys; the host may keep a point object across records or own it instead of using the pool; wide points; tags holding timestamps), interleaved at every yield point with simulator-chosen recycling of TFMeta/Point/Task objects; evaluation = one execution of a plan's histories (solo reference or interleaved); non-trivial = at least 2 operations, and a pooled object was recycled or a task switch happened; distinct = hash of (histories, switch and recycle decisions)"
 }
 func (Prop) Assumptions() []string {
 	return []string{
